@@ -5,11 +5,16 @@ package poolsim
 
 import (
 	"fmt"
+	"runtime/debug"
 
 	"github.com/ElrondNetwork/elrond-go/storage/txcache"
 
 	"verifsim/simkit"
 )
+
+// Every run builds a fresh pool (two hundred small maps) on a heap of a few hundred kB: with the default GC
+// target the collector would run every few runs and dominate the wall time. Harness-only tuning.
+func init() { debug.SetGCPercent(1600) }
 
 // World implements simkit.World.
 type World struct{}
@@ -27,7 +32,7 @@ func (World) Real(prop string) []string {
 func (World) Stub(prop string) []string {
 	return []string{
 		fmt.Sprintf("TxGasHandler: constant price schedule (MinGasPrice %d, MinGasLimit %d, MinGasPriceForProcessing %d, move gas = gas limit, processing gas = 0, price = the transaction's own gas price)", stubMinGasPrice, stubMinGasLimit, stubMinGasPrice/stubProcessingDivisor),
-		"scheduler/clock: each run is one testing/synctest bubble; synctest.Wait() after every step runs the sweeping goroutine spawned by SelectTransactions to completion before the next step",
+		"scheduler/clock: each run is one testing/synctest bubble; synctest.Wait() after every SelectTransactions (the only operation that spawns a goroutine) runs the sweeping goroutine to completion before state is read and before the next step",
 	}
 }
 
@@ -35,7 +40,7 @@ func (World) Assumptions(prop string) []string {
 	common := []string{
 		"a transaction hash determines sender, nonce, gas price and size (the harness derives the hash from them); the same hash is never offered with different content or another sender",
 		"operations are issued by one driver; the only concurrent activity is the pool's own after-selection goroutine, quiesced with synctest.Wait() before state is read (interleavings of callers are not part of C25/C26)",
-		"Go map iteration order cannot be seeded and txcache orders senders of one score bucket by it. The harness keeps the run independent of it: when two senders share a score bucket (read through the verif accessor) a SelectTransactions whose requested count could bind is issued with count = pooled transactions + 1 (probe select_widened_tie), and an AddTx whose pool-level eviction would cut through a group of tied senders is skipped (probe add_skipped_tie). Sender base gas prices are drawn distinct so ties are the exception (10% of the plans use one price for all senders on purpose)",
+		"Go map iteration order cannot be seeded and txcache orders senders of one score bucket by it. The harness keeps the run independent of it: when two senders share a score bucket (read through the verif accessor) a SelectTransactions whose requested count could bind is issued with count = pooled transactions + 1 (probe select_widened_tie), and an AddTx whose pool-level eviction would cut through a group of tied senders is skipped (probe add_skipped_tie). Sender base gas prices are drawn distinct so ties are the exception (5% of the plans use one price for all senders on purpose)",
 		"per-sender lists, score buckets and (for probes only) the pool's own account-nonce/failed-selection records are read through storage/txcache/verifHooks.go (build tag verif, read-only)",
 	}
 	switch prop {
@@ -70,7 +75,7 @@ func (World) Rule(prop string) string {
 }
 
 func (World) Budget(prop, tier string) int {
-	q := map[string]int{"C25": 120000, "C26": 120000}[prop]
+	q := map[string]int{"C25": 80000, "C26": 80000}[prop]
 	if tier == "thorough" {
 		return q * 30
 	}
